@@ -145,3 +145,156 @@ def check_fold(S, F):
 def run(F, inv, summaries):
     S = Sib(F, inv, summaries, depth=4, budget=300000)
     return [check_iter(S, F), check_fold(S, F)]
+
+
+# ------------------------------------------------------------------------------------------------------------------
+# NDP option iterator step (C17 clause): RFC 4861 4.6 - an option is `type, length (units of 8 bytes), data`; length 0 is
+# invalid; options tile the option area.
+
+NDP_IT = "<transport::icmpv6::ndp_options_iterator::NdpOptionsIterator as core::iter::Iterator>::next"
+
+
+def check_ndp_iter(S, F):
+    b = F.bodies.get(NDP_IT)
+    r = {"rule": "ndp-iter", "what": "NdpOptionsIterator::next", "sp": b["span"] if b else "", "problems": [], "paths": 0,
+         "ok": 0, "err": 0, "none": 0}
+    if b is None:
+        r["problems"].append("function not found")
+        return r
+    I = S.interp()
+    st = State()
+    a0 = I.materialize(st, b["locals"][1][0], ("nd", 0))
+    R = region_of(I.load(st, ("place", a0.fid, a0.local, a0.projs)))
+    if R is None:
+        r["problems"].append("option area of the iterator is not tracked")
+        return r
+    fin, probs, I = S.run(b, st, [a0], I)
+    r["problems"] += probs
+    for (s1, rv) in fin:
+        if not s1.feasible():
+            continue
+        r["paths"] += 1
+        now = region_of(I.load(s1, ("place", a0.fid, a0.local, a0.projs)))
+        if now is None:
+            r["problems"].append("remaining option area not tracked")
+            continue
+        if not (isinstance(rv, VAdt) and rv.path == OPTION and rv.variant is not None):
+            r["problems"].append("result of next() not decided on a path")
+            continue
+        if rv.variant == 0:
+            r["none"] += 1
+            if not s1.entails(-R.len):
+                r["problems"].append("next() returns None although the option area is not empty")
+            continue
+        item = rv.fields[0]
+        if not (isinstance(item, VAdt) and item.path == RESULT and item.variant is not None):
+            r["problems"].append("item class not decided on a path")
+            continue
+        b0 = I.read_byte(s1, R.origin, R.off).lin
+        b1 = I.read_byte(s1, R.origin, R.off + 1).lin
+        want = b1.scale(8)
+        if item.variant == 0:
+            r["ok"] += 1
+            if now.origin != R.origin:
+                r["problems"].append("remaining area is not a sub-slice of the given one")
+                continue
+            adv = now.off - R.off
+            if not S.int_eq(s1, adv, want):
+                r["problems"].append("an option advances the iterator by %s bytes, its length field says %s" % (
+                    show_lin(adv)[:60], show_lin(want)[:40]))
+            if not (s1.entails(adv - 8) and s1.entails(R.len - adv)):
+                r["problems"].append("an option is yielded without consuming 8..=len bytes")
+            d = now.off + now.len - R.off - R.len
+            if not (s1.entails(d) and s1.entails(-d)):
+                r["problems"].append("the remaining area does not end where the given one ends")
+            # the option handed out is exactly the consumed prefix
+            reg = None
+            for (_, g) in I.walk_regions(item.fields[0]):
+                reg = g
+                break
+            if reg is not None and reg.origin == R.origin:
+                if not (S.int_eq(s1, reg.off, R.off) and S.int_eq(s1, reg.len, adv)):
+                    r["problems"].append("the option slice is [%s,+%s), the consumed prefix [%s,+%s) (gap or overlap)" % (
+                        show_lin(reg.off), show_lin(reg.len), show_lin(R.off), show_lin(adv)))
+        else:
+            r["err"] += 1
+            if not s1.entails(-now.len):
+                r["problems"].append("after an error the remaining area is not empty")
+            e = item.fields[0]
+            adt = F.adts.get(e.path) if isinstance(e, VAdt) else None
+            if adt and e.variant is not None:
+                var = adt["variants"][e.variant]
+                fs = dict(zip([f["name"] for f in var["fields"]], e.fields or ()))
+                if var["name"] == "ZeroLength" and not (s1.entails(b1) and s1.entails(-b1)):
+                    r["problems"].append("ZeroLength is reported although the length field is not entailed to be 0")
+                if var["name"] == "UnexpectedEndOfSlice":
+                    ex, ac = fs.get("expected_size"), fs.get("actual_size")
+                    if isinstance(ex, VInt) and not S.int_eq(s1, ex.lin, want) and not s1.entails(Lin.const(1) - R.len):
+                        r["problems"].append("UnexpectedEndOfSlice.expected_size is %s, the length field says %s" % (
+                            show_lin(ex.lin)[:60], show_lin(want)[:40]))
+                    if isinstance(ac, VInt) and not S.int_eq(s1, ac.lin, R.len):
+                        r["problems"].append("UnexpectedEndOfSlice.actual_size is not the remaining length")
+                oid = fs.get("option_id")
+                if isinstance(oid, VAdt) and oid.fields and isinstance(oid.fields[0], VInt) and \
+                        s1.entails(R.len - 2) and not S.int_eq(s1, oid.fields[0].lin, b0):
+                    r["problems"].append("%s.option_id is not the type byte of the input" % var["name"])
+        if len(r["problems"]) > 5:
+            break
+    # a zero length field must be rejected: no Ok path may allow b1 == 0
+    r["problems"] = list(dict.fromkeys(r["problems"]))[:5]
+    return r
+
+
+# ------------------------------------------------------------------------------------------------------------------
+# Ethernet/IPv4 view of ARP (C17 clause): the fixed-size view holds *whole* addresses - on every Ok path of
+# ArpPacket::try_eth_ipv4 the packet's hardware / protocol address sizes equal the lengths of the view's address arrays
+# (taken from the view's type, no external table), so nothing is truncated and nothing uninitialised is read.
+
+ARP_VIEW = "net::arp_packet::ArpPacket::try_eth_ipv4"
+ARP_FIELDS = {"sender_mac": "hw_addr_size", "target_mac": "hw_addr_size", "sender_ipv4": "proto_addr_size",
+              "target_ipv4": "proto_addr_size"}
+
+
+def check_arp_view(S, F):
+    b = F.bodies.get(ARP_VIEW)
+    r = {"rule": "arp-view", "what": "ArpPacket::try_eth_ipv4", "sp": b["span"] if b else "", "problems": [], "paths": 0}
+    if b is None:
+        r["problems"].append("function not found")
+        return r
+    I = S.interp()
+    st = State()
+    a0 = I.materialize(st, b["locals"][1][0], ("ar", 0))
+    me = I.load(st, ("place", a0.fid, a0.local, a0.projs))
+    padt = F.adts.get(me.path)
+    pf = dict(zip([f["name"] for f in padt["variants"][0]["fields"]], me.fields))
+    fin, probs, I = S.run(b, st, [a0], I)
+    r["problems"] += probs
+    for (s1, rv) in fin:
+        if not s1.feasible() or S.result_variant(I, s1, rv) != "Ok":
+            continue
+        r["paths"] += 1
+        view = rv.fields[0]
+        vadt = F.adts.get(view.path) if isinstance(view, VAdt) else None
+        if vadt is None:
+            r["problems"].append("view value not tracked")
+            continue
+        for f in vadt["variants"][0]["fields"]:
+            if f["name"] not in ARP_FIELDS:
+                continue
+            t = I.rt(f["ty"])
+            if not (isinstance(t, dict) and t["k"] == "array" and t["len"] is not None):
+                continue
+            size = pf.get(ARP_FIELDS[f["name"]])
+            if not isinstance(size, VInt) or not S.int_eq(s1, size.lin, Lin.const(t["len"])):
+                r["problems"].append("the view is built although %s is not entailed to be %d (the length of %s): an "
+                                     "address would be truncated or read beyond its initialised part" % (
+                                         ARP_FIELDS[f["name"]], t["len"], f["name"]))
+    if r["paths"] == 0:
+        r["problems"].append("no Ok path analysed")
+    r["problems"] = list(dict.fromkeys(r["problems"]))[:4]
+    return r
+
+
+def run_c17(F, inv, summaries):
+    S = Sib(F, inv, summaries, depth=5, budget=400000)
+    return [check_ndp_iter(S, F), check_arp_view(S, F)]
